@@ -28,7 +28,9 @@ CONSTANTS SigIds,      \* candidate signatures to draw families from (indices in
           MaxFam,      \* family length 1..MaxFam
           Forms,       \* argument forms
           MaxArgs,     \* call length 0..MaxArgs
-          Restore      \* TRUE: the loop restores the arguments after a failed candidate
+          Restore,     \* TRUE: the loop restores the arguments after a failed candidate
+          FamFilter    \* "all" | "threshold": only families <<string, .., string, int, .., int>> (long families: the index
+                       \* order beyond ten members, where the index suffix is no longer a decimal digit)
 
 (* ---- signatures ---- *)
 S(ps, var, gen) == [ps |-> ps, var |-> var, gen |-> gen]
@@ -149,7 +151,9 @@ Families == SeqsUpTo(SigIds, MaxFam) \ {<<>>}
 Calls == {c \in SeqsUpTo(Forms, MaxArgs) : (\E k \in 1..Len(c) : c[k] = "tup") => c = <<"tup">>}
 HasGeneric(f) == \E k \in 1..Len(f) : IsGeneric(f[k])
 Exotic(c) == \E k \in 1..Len(c) : c[k] \in {"gid", "ov1"}
+Threshold(f) == \E k \in 0..Len(f) : \A m \in 1..Len(f) : f[m] = (IF m <= k THEN 3 ELSE 1)
 Init == /\ fam \in Families /\ call \in Calls
+        /\ (FamFilter = "threshold" => Threshold(fam))
         /\ ~(HasGeneric(fam) /\ Exotic(call))      \* function-valued arguments to generic candidates are outside the fragment (see C07)
         /\ ell \in (IF Len(call) > 0 /\ call[Len(call)] = "vsl" THEN BOOLEAN ELSE {FALSE})
         /\ args = Pristine(call) /\ backup = <<>> /\ i = 0 /\ j = 0 /\ bind = "" /\ phase = "start" /\ result = [idx |-> 0]
